@@ -150,42 +150,7 @@ def _montecarlo(ck: Checker, prog: Program):
     _montecarlo_table(ck, prog, f)
 
 
-def _holds(lit, assign) -> Optional[bool]:
-    """Truth of an (in)equality literal over string-valued arguments under a finite assignment."""
-    def val(e):
-        e = e.xreplace(assign)
-        return e
-    if isinstance(lit, (sp.Eq, sp.Ne)):
-        a, b = val(lit.lhs), val(lit.rhs)
-        in_ = sp.Function("in_")
-        if b == sp.true and getattr(a, "func", None) == sp.Function("in_"):
-            item, cont = a.args
-            if isinstance(cont, sp.Tuple) and item.is_Symbol and item.name.startswith("'") and all(c.is_Symbol and c.name.startswith("'") for c in cont):
-                r = item in list(cont)
-                return r if isinstance(lit, sp.Eq) else not r
-            return None
-        if b == sp.true and getattr(a, "func", None) == sp.Function("truth"):
-            inner = a.args[0]
-            if isinstance(inner, (sp.Eq, sp.Ne)) or inner in (sp.true, sp.false):
-                r = _holds(inner, assign) if inner not in (sp.true, sp.false) else bool(inner)
-                return None if r is None else (r if isinstance(lit, sp.Eq) else not r)
-            return None
-        if a.is_Symbol and b.is_Symbol and a.name.startswith("'") and b.name.startswith("'"):
-            r = a == b
-            return r if isinstance(lit, sp.Eq) else not r
-        return None
-    if isinstance(lit, sp.Not):
-        r = _holds(lit.args[0], assign)
-        return None if r is None else not r
-    if isinstance(lit, sp.And):
-        rs = [_holds(x, assign) for x in lit.args]
-        return None if any(r is None for r in rs) else all(rs)
-    if isinstance(lit, sp.Or):
-        rs = [_holds(x, assign) for x in lit.args]
-        return None if any(r is None for r in rs) else any(rs)
-    if lit in (sp.true, sp.false):
-        return bool(lit)
-    return None
+from ..pathtable import holds as _holds
 
 
 def _montecarlo_table(ck: Checker, prog: Program, f):
